@@ -640,7 +640,9 @@ class Exec:
         if b.size() % 8: b = z3.ZeroExt(8 - b.size() % 8, b)
         mem.write(p.obj, p.off, bv_to_cells(b))
     def load_quiet(s, mem, p, ty):
-        n = len(s.obligations); r = s.load(mem, p, ty); del s.obligations[n:]; return r
+        n = len(s.obligations)
+        try: return s.load(mem, p, ty)
+        finally: del s.obligations[n:]        # also when the load raises Unsupported (real-mode read of uninitialised bytes): the probe must leave no obligation behind
     def sym_offsets(s, mem, p, size, align):
         """candidate concrete offsets for a symbolic offset into one object"""
         osz = len(mem.objs[p.obj])
@@ -1207,7 +1209,10 @@ class FuncRun:
         if op == 'select':
             c, a, b = C(I.args[0]), C(I.args[1]), C(I.args[2])
             if isinstance(c, list): return [ex.ite(b2c(ci), x, y) for ci, x, y in zip(c, a, b)]
-            return ex.ite(z3.simplify(b2c(c)), a, b)
+            cc = z3.simplify(b2c(c))
+            if z3.is_true(cc): return a          # concrete condition (unrolled loop counter): no If(True, p, q) pointers / symbolic offsets
+            if z3.is_false(cc): return b
+            return ex.ite(cc, a, b)
         if op == 'freeze': return C(I.args[0])
         if op == 'alloca':
             return Ptr(ex.newobj(mem, ex.mod.size(I.ty), 'a'), 0)
